@@ -76,6 +76,11 @@ def scenarios(tier):
             if _feasible(evs) and (tier != 'quick' or all(e[0] == 'w' for e in evs)):
                 out.append(Scenario('io', n=2, evs=[list(e) for e in evs], drain='each', E=1 if tier == 'quick' else 2,
                                     tick=0.13, beh='slow'))
+    # workers that answer the stop signal with a last burst of output and die 0.15 s later, with a check period (0.13 s)
+    # that lets the periodic check collect them between two polls of the kill that is waiting for them
+    for evs in ([['w', 0, 'stdout', 1]], [['w', 1, 'stdout', 1023]]):
+        for tick in (0.13, 0.175):
+            out.append(Scenario('io', n=2, evs=evs, drain='each', E=1 if tier == 'quick' else 2, tick=tick, beh='lastwords'))
     # a worker that leaves more than a few read buffers behind (6000 / 20000 / 70000 bytes, the last one more than a pipe
     # holds at once) and exits: whoever reaps it first, everything it wrote arrives
     for size in (6000, 20000):
@@ -142,6 +147,9 @@ def run(scn, ch):
     n = scn.n
     from vt.simkernel import slow
     beh = [slow(0.15)] if scn.p.get('beh') == 'slow' else None
+    if scn.p.get('beh') == 'lastwords':
+        from vt.simkernel import Behaviour
+        beh = [Behaviour('slow+lastwords', {'*': ('die', 0.15)}, last_words=1500)]
     fs = bool(scn.p.get('fs'))
     scratch = Scratch() if fs else None
     world = World(ch, [WSpec('a', numprocesses=n, graceful_timeout=0.5 if beh else 0.1, behaviours=beh,
@@ -240,6 +248,13 @@ def run(scn, ch):
         _drain(world, res, None)
         for (t, pid, s, via) in world.kernel.signal_log:
             terminated_by_daemon.add(pid)
+        said_pids = set()
+        for p in world.kernel.spawn_log:
+            if getattr(p, 'said', None):
+                written[(p.pid, 'stdout')] = written.get((p.pid, 'stdout'), b'') + p.said
+                said_pids.add(p.pid)
+        # what a worker says while dying from the daemon's stop signal is output like any other
+        terminated_by_daemon -= said_pids
         if fs:
             _judge_files(world, res, scratch, written, terminated_by_daemon, procs[0])
             for key in [k for k in written if k[1] == 'stdout' and (world.kernel.procs[k[0]].watcher or '') == 'a']:
